@@ -143,6 +143,8 @@ class AddressManager:
         if addresses:
             return random.choice(addresses)
         addresses = await self.ensure_address_gap()
+        if not addresses:  # another caller topped the chain up between our look-up and our own top-up
+            addresses = await self.get_addresses(only_usable=True, limit=10)
         return addresses[0]
 
 
